@@ -351,6 +351,40 @@ def oracle_lim(ctx, o):
                           dict(setup_sig(s), kind="lim_ratio", which=which), dict(rep))
 
 
+def refine_grid(ctx, o):
+    """the three grid rates of an observation re-evaluated with Simpson{2000} and GaussLegendre{300} (same setup, same grid).
+    Returns (C, Rs, Ri) of the fine Simpson rule when the two fine rules agree to 1e-2, "timeout", or None."""
+    if not getattr(ctx, "binp", None):
+        return None
+    s = o["setup"]
+    tmp = os.path.join(VERIF, "evidence", "replays", f".c08-gridrefine-{os.getpid()}.jsonl")
+    os.makedirs(os.path.dirname(tmp), exist_ok=True)
+    with open(tmp, "w") as f:
+        f.write(json.dumps({"id": "g", "config": s["config"], "idler_waist_um": s["idler_waist_um"], "integrator": "simpson200", "setup": s}) + "\n")
+    vals = {}
+    try:
+        for name in ("simpson2000", "gl300"):
+            r = subprocess.run([ctx.binp, "c08", "gridpts", tmp, name, "rates"], capture_output=True, text=True, timeout=600)
+            for line in r.stdout.splitlines():
+                if line.startswith("{"):
+                    x = json.loads(line)
+                    if x.get("kind") == "grid":
+                        vals[name] = (fh(x["c"]), fh(x["rs"]), fh(x["ri"]))
+    except subprocess.TimeoutExpired:
+        return "timeout"
+    except Exception:
+        return None
+    finally:
+        if os.path.exists(tmp):
+            os.remove(tmp)
+    a, b = vals.get("simpson2000"), vals.get("gl300")
+    if not a or not b or not all(finite(v) and v > 0 for v in a + b):
+        return None
+    if any(abs(x - y) > 1e-2 * max(x, y) for x, y in zip(a, b)):
+        return None
+    return a
+
+
 def oracle_grid(ctx, o):
     s = o["setup"]
     ctx.seen(("grid", s["config"]))
@@ -364,6 +398,21 @@ def oracle_grid(ctx, o):
     if not all(finite(v) and v >= 0 for v in (c, rs, ri)):
         ctx.violation("S5", f"rates summed over a grid are not non-negative and finite: {c!r}, {rs!r}, {ri!r}", dict(setup_sig(s), kind="grid_rates"), rep)
         return
+    if any(not (finite(v) and 0 <= v <= 1 + REL_SLACK) for v in effs.values()) and o.get("res", 4) == 4 and not o.get("refined"):
+        # the same convergence premise as for single frequency pairs, at the level of the summed rates: a far-detuned grid corner
+        # where Simpson{200} / GaussLegendre{40} alias the oscillating integrand can dominate the coincidence sum
+        fine = refine_grid(ctx, o)
+        if fine == "timeout":
+            ctx.count("grid:undecided_timeout")
+            ctx.violation("S5", f"grid efficiencies outside [0,1] ({s['family']}) could not be decided: the re-evaluation with Simpson{{2000}} / "
+                                f"GaussLegendre{{300}} did not finish within 600 s", {"kind": "grid_undecided_timeout"}, rep, found_input=False)
+            return
+        if fine is not None and fine[0] <= fine[1] * (1 + REL_SLACK) and fine[0] <= fine[2] * (1 + REL_SLACK) \
+                and any(abs(x - y) > 5e-2 * max(x, y) for x, y in zip((c, rs, ri), fine)):
+            ctx.count("grid:not_converged:" + s["family"])
+            ctx.note(f"{o['integrator'].get('method')} is not converged for the grid rates of a {s['family']} setup (C {c!r} vs {fine[0]!r} with Simpson{{2000}}); "
+                     f"converged efficiencies {fine[0]/fine[2]:.4f} (signal), {fine[0]/fine[1]:.4f} (idler) are inside [0,1]")
+            return
     for nm, v in effs.items():
         if not (finite(v) and 0 <= v <= 1 + REL_SLACK):
             ctx.violation("S5", f"{nm} heralding efficiency {v!r} outside [0,1] ({s['family']}; rates {c!r}, {rs!r}, {ri!r})",
@@ -644,7 +693,7 @@ def run(ctx):
             oracle(ctx, obs2, a2)
             if real_found(ctx):
                 break
-    fired = sum(v for k, v in ctx.cov["histogram"].items() if k.startswith("pw:not_converged:"))
+    fired = sum(v for k, v in ctx.cov["histogram"].items() if k.startswith(("pw:not_converged:", "grid:not_converged:")))
     ctx.cov["convergence_guard_fired"] = fired
     ctx.log(f"S5 convergence guard fired {fired} time(s) in this run")
     ctx.cov["rule"] = ("rate triples: fixed zero/NaN/inf/extreme cases + log-uniform rates over 24 decades, 70% with C <= min(Rs,Ri), 15% with a "
@@ -658,7 +707,7 @@ def run(ctx):
         "C <= Rs and C <= Ri => efficiencies in [0,1]": "proved",
         "rates non-negative": "proved (sums of non-negative terms; spectra non-negative for physical setups)",
         "eta, F, R in (0,1], F = R = 1 without walk-off": "proved (Coquelicot RInt; existence of the iterated integral included)",
-        "convergence premise": (f"WEAKER than the letter of the property, which names Simpson{{200}} / GaussLegendre{{40}} as converged: an exceedance observed "
+        "convergence premise": (f"WEAKER than the letter of the property, which names Simpson{{200}} / GaussLegendre{{40}} as converged: an exceedance (of a frequency pair, or of the rates summed over a grid) observed "
                                 f"with those rules is not reported when Simpson{{2000}} and GaussLegendre{{300}} agree to 1e-2, satisfy the inequality and differ "
                                 f"from the observation by more than 5 % (quadrature artefact at a far-detuned pair); fired {fired} time(s) in this run"),
         "pointwise JSI <= singles": "validated_only (oracle over the property's box); the chain pointwise => rates => efficiencies is proved (C08_pointwise_partial)",
@@ -672,6 +721,6 @@ def run(ctx):
         "the two fibre-coupling integrals are oracles of the model (another property models the integrands); the inequality between them is validated by sampling",
         "x of F(x) is taken as L tan(rho) / sqrt(Wp^2 + (1/Ws^2 + 1/Wi^2)^-1), the overlap radius of the walked-off pump with the two collection modes (the property text leaves x implicit)",
         "'does not exceed' is checked with a relative slack of 1e-6 for the quadrature",
-        f"convergence guard (weaker than the property's letter): exceedances at Simpson{{200}}/GaussLegendre{{40}} are suppressed when Simpson{{2000}} and "
+        f"convergence guard (weaker than the property's letter): exceedances (pointwise, and of grid rates / efficiencies) at Simpson{{200}}/GaussLegendre{{40}} are suppressed when Simpson{{2000}} and "
         f"GaussLegendre{{300}} agree to 1e-2, satisfy the inequality and differ from the observation by > 5 %; it fired {fired} time(s) in this run; "
         "a time-out of that re-evaluation (600 s) or of the classification dump (300 s) is reported as an undecided case without a failing input"])
